@@ -158,6 +158,9 @@ theorem tidy_isFile (role : P → Role) (p : P) (k : Bool → Prog P L R) (hp : 
     (hk : ∀ b, Tidy role (k b)) : Tidy role (.isFile p k) :=
   ⟨by simp only [Within]; exact ⟨hp, fun b => (hk b).1⟩, fun fs h => by simp only [Prog.exec]; exact (hk _).2 fs h⟩
 
+theorem tidy_dbMem (role : P → Role) (k : Prog P L R) (hk : Tidy role k) : Tidy role (.dbMem k) :=
+  ⟨by simp only [Within]; exact hk.1, fun fs h => by simp only [Prog.exec]; exact hk.2 fs h⟩
+
 theorem tidy_withZone (role : P → Role) (W : Work L Z R) (r : Routine) (ref f tmp : P) (k : Z → Prog P L R)
     (href : role ref = .input) (hf : role f = .cache) (ht : role tmp = .temp) (hk : ∀ z, Tidy role (k z)) :
     Tidy role (withZone W r ref f tmp k) := by
@@ -266,7 +269,10 @@ theorem tidy_prog (role : P → Role) (W : Work L Z R) (r : Routine) (a : Args P
   | superpose =>
     simp only [prog]
     apply tidy_checked role W _ _ _ _ _ (hrd _ (by simp [Rd.path])) (hrd _ (by simp [Rd.path]))
-    intro obs res; exact tidy_export1 role W _ a obs res ha
+    intro obs res
+    split
+    · exact tidy_export1 role W _ a obs res ha
+    · exact tidy_dbMem role _ (tidy_dbMem role _ (tidy_export1 role W _ a obs res ha))
   | align =>
     simp only [prog]
     apply tidy_checked role W _ _ _ _ _ (hrd _ (by simp [Rd.path])) (hrd _ (by simp [Rd.path]))
